@@ -376,6 +376,31 @@ fn run_case(c: Case, w: &mut Worker) {
     }
 }
 
+/// States deep inside the life of a key that is far too large to walk (7 x H5, 2^35 leaves):
+/// around 2^32, a value with high and low bits set, and the last two leaves.  The state is the key
+/// bytes; the protocol (one invocation, complete successor, nothing on refusal) must hold there too.
+fn run_deep_states(alg: Alg, w: &mut Worker, seed: Vec<u8>) {
+    let c = Case { alg, levels: vec![Level { h: 5, w: 8 }; 7], seed };
+    let kp = match libcall::keygen(c.alg, &c.levels, &c.seed, None) {
+        Out::Ok(k) => k,
+        other => {
+            w.report.violation(&format!("C04:keygen:{}", c.alg.name()), &format!("keygen failed: {}", other.describe()), J::Null);
+            return;
+        }
+    };
+    let total = hss::total_leaves(&c.levels) as u64;
+    for counter in [(1u64 << 32) - 2, (1 << 32) - 1, 1 << 32, 0x5_1234_5678, (1 << 33) + 31, total - 2, total - 1] {
+        let blob = hss::make_blob(counter, &c.levels, &c.seed);
+        let state = format!("counter={counter}");
+        for cb in [Cb::Accept, Cb::Refuse] {
+            one_call(w, &c, &blob, &state, true, cb, AuxKind::None, &[], SignEntry::Bytes, &kp.vk);
+        }
+        one_call(w, &c, &blob, &state, true, Cb::Accept, AuxKind::None, &[], SignEntry::TrySign, &kp.vk);
+        sign_mut_calls(w, &c, &blob, &state, true);
+        w.report.count("deep_states", 1);
+    }
+}
+
 pub fn run(ctx: &Ctx) -> Report {
     let mut rng = ctx.rng("c04");
     let mut cases = Vec::new();
@@ -394,11 +419,13 @@ pub fn run(ctx: &Ctx) -> Report {
         let cb = shared::sign_cost(b.alg, &b.levels) * hss::total_leaves(&b.levels) as f64;
         cb.partial_cmp(&ca).unwrap()
     });
+    let deep: Vec<(Alg, Vec<u8>)> = if ctx.quick() { vec![Alg::Sha256_128, Alg::Sha256_192] } else { model::ALL_ALGS.to_vec() }.into_iter().map(|a| (a, rng.bytes(a.n()))).collect();
     let mut rep = par_run(ctx, cases, |c, w| run_case(c, w));
+    rep.merge(par_run(ctx, deep, |(a, sd), w| run_deep_states(a, w, sd)));
     rep.exhaustive = Some(true);
     rep.rule = "enumeration, not sampling: every private-key state of the complete lifetime of [H2], [H2,H2], [H2,H2,H2], [H5] (thorough: also [H2x4], [H5,H2]) under all 6 hashes \
                 x callback outcome {accept, refuse} x aux {none, fresh, valid, corrupted MAC} x entry {sign, try_sign, try_sign_with_aux}, plus every failing precondition \
-                (exhausted, wiped, counter >= lifetime, every key length 0..64, invalid parameter bytes, empty/short aux); the callback is a recorder; \
+                (exhausted, wiped, counter >= lifetime, every key length 0..64, invalid parameter bytes, empty/short aux); the same calls at states deep inside the life of a 2^35-leaf key (around 2^32, 0x512345678, the last two leaves); the callback is a recorder; \
                 distinct_nontrivial = distinct (hash, shape, state, callback outcome, aux, entry) other than the plain first signature"
         .into();
     if rep.counter("released") == 0 || rep.counter("withheld") == 0 {
